@@ -88,6 +88,28 @@ pub fn c15(tier: &str, seed: u64, known: &[String]) -> Report {
         };
         check_text(&s, &mut rep);
     }
+    // characters that Unicode case folding, digit classification or normalisation could turn into hexadecimal digits:
+    // ligatures (upper-case to "FF", "FI", ...), full-width forms, non-ASCII decimal digits, long s, dotless i, Kelvin sign,
+    // mathematical letters, combining marks; all short texts over them and every single-position substitution in a colour
+    let odd: Vec<char> = "\u{fb00}\u{fb01}\u{fb02}\u{fb03}\u{fb04}\u{ff10}\u{ff19}\u{ff21}\u{ff26}\u{ff41}\u{ff46}\u{663}\u{969}\u{17f}\u{131}\u{212a}\u{df}\u{1d41a}\u{1d7d7}\u{301}\u{2460}af0".chars().collect();
+    let n = odd.len();
+    for len in 1..=(if tier == "thorough" { 4 } else { 3 }) {
+        for i in 0..n.pow(len as u32) {
+            let mut k = i; let mut s = String::new();
+            for _ in 0..len { s.push(odd[k % n]); k /= n; }
+            check_text(&s, &mut rep);
+            check_text(&format!("#{s}"), &mut rep);
+        }
+    }
+    for base in ["#a1b2c3", "a1b2c3", "#fff", "f0a", "#000000"] {
+        let v: Vec<char> = base.chars().collect();
+        for p in 0..=v.len() { for ch in &odd {
+            let mut w = v.clone(); if p < w.len() { w[p] = *ch; } else { w.push(*ch); }
+            check_text(&w.iter().collect::<String>(), &mut rep);
+            let mut w = v.clone(); w.insert(p, *ch);
+            check_text(&w.iter().collect::<String>(), &mut rep);
+        } }
+    }
     rep
 }
 
@@ -355,6 +377,20 @@ pub fn c19(tier: &str, seed: u64, known: &[String]) -> Report {
             let xz = Xyz { x: rng.range(-0.5, 1.5), y: rng.range(-0.5, 1.5), z: rng.range(-0.5, 1.5) };
             { let got: Lab = from_xyz_to_xyz_subtype(xz); let want = Lab::from(xz); rep.check("C19.helper.xyz_to_xyz_subtype", same!(got, want), || format!("Xyz({},{},{}) -> Lab: {:?} vs {:?}", xz.x, xz.y, xz.z, got.as_vec(), want.as_vec())); }
         }
+    }
+    // structured XYZ sources: a dyadic lattice with zeros, equal and exactly cancelling components (x + y + z == 0 with
+    // non-zero parts), where a shortcut keyed on a sum, a product or an equality test would differ from the two-step path
+    let lv = [-1.0, -0.5, -0.25, 0.0, 0.25, 0.5, 1.0];
+    for i in 0..343usize {
+        let xz = Xyz { x: lv[i / 49], y: lv[i / 7 % 7], z: lv[i % 7] };
+        for k in [None, Some(Kind::D65), Some(Kind::D50), Some(Kind::Adobe)] {
+            { let got: Rgb = from_xyz_compatible_type_to_rgb_subtype(xz, k); let want = xz.as_rgb(k.unwrap_or(Kind::D65));
+              rep.check("C19.helper.xyz_to_rgb_subtype", same!(got, want), || format!("Xyz({},{},{}) -> Rgb: {:?} vs {:?}", xz.x, xz.y, xz.z, got.as_vec(), want.as_vec())); }
+            { let got: Hsv = from_xyz_compatible_type_to_rgb_subtype(xz, k); let want = Hsv::from(xz.as_rgb(k.unwrap_or(Kind::D65)));
+              rep.check("C19.helper.xyz_to_rgb_subtype", same!(got, want), || format!("Xyz({},{},{}) -> Hsv: {:?} vs {:?}", xz.x, xz.y, xz.z, got.as_vec(), want.as_vec())); }
+        }
+        { let got: Xyy = from_xyz_to_xyz_subtype(xz); let want = Xyy::from(xz); rep.check("C19.helper.xyz_to_xyz_subtype", same!(got, want), || format!("Xyz({},{},{}) -> Xyy: {:?} vs {:?}", xz.x, xz.y, xz.z, got.as_vec(), want.as_vec())); }
+        { let got: OkLab = from_xyz_to_xyz_subtype(xz); let want = OkLab::from(xz); rep.check("C19.helper.xyz_to_xyz_subtype", same!(got, want), || format!("Xyz({},{},{}) -> OkLab: {:?} vs {:?}", xz.x, xz.y, xz.z, got.as_vec(), want.as_vec())); }
     }
     rep
 }
